@@ -10,8 +10,13 @@
 package build
 
 import (
+	"crypto/sha256"
 	"fmt"
 	"math/big"
+	"os"
+	"path/filepath"
+	"reflect"
+	"runtime"
 
 	"github.com/youchainhq/go-youchain/common"
 	"github.com/youchainhq/go-youchain/consensus"
@@ -302,3 +307,25 @@ func (b *Builder) Commit(res *Result) error {
 	}
 	return b.Chain.WriteBlockWithState(block, res.State, res.Receipts)
 }
+
+// WorkerSourceDigest is the SHA-256 of miner/worker.go in the repository tree this binary was
+// built from (located through the recorded source path of a function of package core). Package
+// miner cannot be linked here (its dependency chain panics at init under this Go version), so
+// Builder is a transcription of it; the digest lets the C06 check notice when the original moved
+// on and the transcription has to be compared again.
+func WorkerSourceDigest() (string, error) {
+	f := runtime.FuncForPC(reflect.ValueOf(core.NewBlockChain).Pointer())
+	if f == nil {
+		return "", fmt.Errorf("no function info")
+	}
+	file, _ := f.FileLine(f.Entry())
+	root := filepath.Dir(filepath.Dir(file))
+	b, err := os.ReadFile(filepath.Join(root, "miner", "worker.go"))
+	if err != nil {
+		return "", err
+	}
+	return fmt.Sprintf("%x", sha256.Sum256(b)), nil
+}
+
+// WorkerSourceDigestTranscribed is the digest of the miner/worker.go that Build/Commit transcribe.
+const WorkerSourceDigestTranscribed = "32abbe876f5e3f19fa8f6267bccbb61587fcaab86b820a6d927d4c613abf1373"
